@@ -322,7 +322,16 @@ class State:
                 how = {"style_" + pend["leaf"]: _copy.deepcopy(vv[0][0])} if pend["how"] == "magic" else {"style": nested(pend["leaf"], _copy.deepcopy(vv[0][0]))}
                 self.objs[1] = make_rep(self.cls, **how)
                 self.model_obj[1][pend["leaf"]] = vv[0][1]
+                if pend["how"] == "dict" and pend.get("shared"):
+                    # one caller-owned style dictionary handed to two constructors: both objects carry the style,
+                    # neither influences the other, and the caller's dictionary stays what it was
+                    d = how["style"]
+                    self.caller_style = (d, _copy.deepcopy(d))
+                    self.objs[0] = make_rep(self.cls, style=d)
+                    self.model_obj[0][pend["leaf"]] = vv[0][1]
         self.model_def = {}  # (node, leaf) -> stored value or None; absent = pristine
+        if not hasattr(self, "caller_style"):
+            self.caller_style = None
         self.updates = 0
         self.nt = False
         self.leaves = leaves_of(self.cls)
@@ -354,6 +363,15 @@ def new_state(init):
 
 
 def apply_op(state, op, ctx):
+    out = _apply_op(state, op, ctx)
+    if state.caller_style is not None and repr(state.caller_style[0]) != repr(state.caller_style[1]):
+        out.append(Violation({"sub": "caller_style_dict_changed", "op": op["op"]},
+                             f"the style dictionary passed to the constructors was changed by the library: {state.caller_style[1]!r} -> {state.caller_style[0]!r}"))
+        state.caller_style = None
+    return out
+
+
+def _apply_op(state, op, ctx):
     out = []
     k = op["op"]
     ctx.label("op:" + k)
@@ -535,7 +553,8 @@ class StyleMachine(machine.VMachine):
             vv = valid_values(REPS[fam][0], leaf)
             if vv and leaf != "label":
                 v = vv[data.draw(st.integers(0, len(vv) - 1))][0]
-                pend = {"leaf": leaf, "value": list(v) if isinstance(v, tuple) else v, "how": data.draw(st.sampled_from(["magic", "dict"]))}
+                pend = {"leaf": leaf, "value": list(v) if isinstance(v, tuple) else v, "how": data.draw(st.sampled_from(["magic", "dict"])),
+                        "shared": data.draw(st.booleans())}
         self.start({"family": fam, "pending": pend})
         if pend is not None and data.draw(st.booleans()):
             # the informative first step: assign the same leaf on the object that still has pending keywords
